@@ -63,6 +63,9 @@ pub fn run_nofast_child(ctx: &Ctx, rep: &mut Report) {
     let st = cmd.status();
     match st {
         Ok(s) if s.success() => {}
+        // the child's watchdog reported a case that does not return (it has printed the VIOLATION
+        // line and written the replay file itself)
+        Ok(s) if s.code() == Some(1) && !std::path::Path::new(&tmp).exists() => std::process::exit(1),
         other => {
             eprintln!("MACHINERY: the no-fast-float engine failed: {:?}", other);
             std::process::exit(2);
@@ -92,6 +95,27 @@ pub fn replay(ctx: &Ctx, j: &J, path: &str) -> i32 {
         }
         eprintln!("MACHINERY: no-fast-float binary not available for this replay");
         return 2;
+    }
+    // a case recorded by the watchdog: run that one rank of that sub-check again, under the watchdog
+    if let (Some(ssub), Some(rank)) = (case["stalled_sub"].as_str(), case["stalled_rank"].as_u64()) {
+        std::env::set_var("MC_ONLY_RANK", rank.to_string());
+        let tier = if case["tier"].as_str() == Some("thorough") { crate::report::Tier::Thorough } else { crate::report::Tier::Quick };
+        let c2 = Ctx { prop: ctx.prop.clone(), tier, seed: ctx.seed, verif_dir: ctx.verif_dir.clone(), repo: ctx.repo.clone(), hooks: ctx.hooks, nofast_bin: ctx.nofast_bin.clone(), only: Some(ssub.trim_end_matches("-nofast").to_string()), threads: 1 };
+        // redirect the evidence of this partial run
+        std::env::set_var("VERIF_EVIDENCE_DIR", format!("{}/target/replay-evidence", ctx.verif_dir));
+        match run(&c2) {
+            Some(rep) => {
+                let n = rep.viols.len();
+                if n == 0 {
+                    println!("replay: rank {} of sub-check {} now returns and holds", rank, ssub);
+                    return 0;
+                }
+                println!("replay: rank {} of sub-check {} returns but violates the property", rank, ssub);
+                println!("VIOLATION property={} replay={}", ctx.prop, path);
+                return 1;
+            }
+            None => return 2,
+        }
     }
     let mut acc = Acc::new();
     if !replay_dispatch(&ctx.prop, sub, case, &mut acc) {
